@@ -35,6 +35,7 @@ type scenario struct {
 	Clean2  bool         // connection 1 uses a clean session
 	OwnPub  bool         // the subscriber also publishes QoS 2 messages under the packet ids 1..window+2
 	Bystand bool         // another client holds a QoS 0 subscription to the same topics (clean session)
+	Shrink  bool         // the backend's inflight window is lowered to 1 before the subscriber reconnects
 	Fault   *connFault
 }
 
@@ -49,6 +50,9 @@ func (s scenario) String() string {
 	}
 	if s.Bystand {
 		own += " qos0-bystander"
+	}
+	if s.Shrink {
+		own += " window-lowered-to-1-before-reconnect"
 	}
 	return fmt.Sprintf("window=%d online=%v offline=%v b1=%q b2=%q clean2=%t%s | %s", s.Window, s.QoS, s.Offline, s.B1, s.B2, s.Clean2, own, f)
 }
@@ -313,6 +317,11 @@ func run(r *h.Run, sc scenario) result {
 	}
 	// ---- phase 2: resume (or clean connect) with behaviour B2, possibly dropping again
 	lossOut := model.outstanding()
+	if sc.Shrink {
+		// more packets may now be stored than the window admits: all of them are
+		// still retransmitted on reconnect
+		b.Mon.Inner.ClientInflightMessages = 1
+	}
 	s1, ca1 := connectSub(sc.Clean2, sc.B2, 'W')
 	if res.inconclusive != "" {
 		return res
@@ -694,7 +703,7 @@ func (m *smodel) checkDup() {
 
 func TestCheck(t *testing.T) {
 	r := h.New("C08", "fault_enumeration")
-	r.Rule("scenarios: inflight window 1-3, 1..window+2 online messages of mixed QoS 1/2, 0-2 offline messages, subscriber behaviour vectors over {ack, withhold, drop connection} per received PUBLISH/PUBREL on the first and on the resumed connection, second connection unclean or clean, a fifth with a QoS 0 bystander subscribed to the same topics, a quarter of the scenarios with the subscriber itself publishing QoS 2 messages under the packet ids in flight towards it; every base scenario is first run without faults to count the packets on each subscriber connection and then re-run with every single fault position (connection c, k-th broker-side Send/Receive, before/after) — all positions for a deterministic third of the base scenarios in quick, for all in thorough. Non-trivial = runs with >= 1 unacknowledged QoS>0 packet at the moment of a connection loss; distinct by (scenario, fault)")
+	r.Rule("scenarios: inflight window 1-3, 1..window+2 online messages of mixed QoS 1/2, 0-2 offline messages, subscriber behaviour vectors over {ack, withhold, drop connection} per received PUBLISH/PUBREL on the first and on the resumed connection, second connection unclean or clean, a fifth with a QoS 0 bystander subscribed to the same topics, a third with the backend's window lowered to 1 before the subscriber reconnects (more packets stored than the window admits), a quarter of the scenarios with the subscriber itself publishing QoS 2 messages under the packet ids in flight towards it; every base scenario is first run without faults to count the packets on each subscriber connection and then re-run with every single fault position (connection c, k-th broker-side Send/Receive, before/after) — all positions for a deterministic third of the base scenarios in quick, for all in thorough. Non-trivial = runs with >= 1 unacknowledged QoS>0 packet at the moment of a connection loss; distinct by (scenario, fault)")
 	r.Assume("the subscriber-side model of sent-and-unacknowledged packets is driven by broker-side sends and by the broker's own Log(PacketReceived) report")
 	r.Assume("workloads stay inside SessionQueueSize (overflow behaviour is documented as out of contract)")
 	rng := r.Rand("c08")
@@ -705,7 +714,7 @@ func TestCheck(t *testing.T) {
 	for i := 0; i < nbase; i++ {
 		w := 1 + i%3
 		n := 1 + rng.Intn(w+2)
-		sc := scenario{Window: w, B1: b1s[rng.Intn(len(b1s))], B2: b2s[rng.Intn(len(b2s))], Clean2: i%9 == 8, OwnPub: i%4 == 1, Bystand: i%5 == 2}
+		sc := scenario{Window: w, B1: b1s[rng.Intn(len(b1s))], B2: b2s[rng.Intn(len(b2s))], Clean2: i%9 == 8, OwnPub: i%4 == 1, Bystand: i%5 == 2, Shrink: w > 1 && i%6 >= 4}
 		for k := 0; k < n; k++ {
 			sc.QoS = append(sc.QoS, packet.QOS(1+rng.Intn(2)))
 		}
